@@ -1,7 +1,9 @@
 // pvx: bounded exhaustive exploration of malramsay64/pypacking (see /verif/DESIGN.md).
 
 mod common;
+mod geo1;
 mod oracle;
+mod states;
 mod sym;
 
 use common::*;
@@ -39,6 +41,11 @@ fn main() {
         _ => usage(),
     };
     match prop {
+        "C02" => geo1::c02(tier),
+        "C12" => geo1::c12(tier),
+        "C13" => geo1::c13(tier),
+        "C14" => geo1::c14(tier),
+        "C15" => geo1::c15(tier),
         "C16" => sym::c16(tier),
         "C17" => sym::c17(tier),
         _ => machinery_error(&format!("no check for {}", prop)),
